@@ -42,17 +42,25 @@ Proof. vm_compute. reflexivity. Qed.
 Lemma excluded_abort_only : forall a b, In (a, b) excluded -> In b abort_only.
 Proof. exact (check_excluded_ok _ _ excluded_checked). Qed.
 
-(* every group of entry points is part of [entries] *)
-Lemma groups_checked :
-  forallb (fun gl => forallb (fun e => mem_list e entries) (snd gl)) entry_groups = true.
+(* every entry point is a function whose body is in the graph *)
+Lemma entries_defined_checked : check_roots_defined direct entries = true.
 Proof. vm_compute. reflexivity. Qed.
 
-Lemma groups_are_entries : forall g l e, In (g, l) entry_groups -> In e l -> In e entries.
-Proof.
-  intros g l e Hg He. pose proof groups_checked as H.
-  rewrite forallb_forall in H. specialize (H (g, l) Hg). change (forallb (fun e => mem_list e entries) l = true) in H.
-  rewrite forallb_forall in H. apply mem_list_In. apply H. exact He.
-Qed.
+Lemma entries_defined : forall e, In e entries -> defined direct e.
+Proof. exact (check_roots_defined_ok _ _ entries_defined_checked). Qed.
+
+(* the seven groups (build, read, match, dispatch, sugar, reply, link) are
+   non-empty and consist of entries *)
+Lemma groups_checked : check_groups entry_groups entries = true.
+Proof. vm_compute. reflexivity. Qed.
+
+Lemma group_ids : map fst entry_groups = [1; 2; 3; 4; 5; 6; 7].
+Proof. vm_compute. reflexivity. Qed.
+
+Lemma groups_are_entries :
+  map fst entry_groups = [1; 2; 3; 4; 5; 6; 7] /\
+  forall g l, In (g, l) entry_groups -> l <> [] /\ forall e, In e l -> In e entries.
+Proof. exact (conj group_ids (check_groups_ok _ _ groups_checked)). Qed.
 
 (* non-vacuity: the graph is not empty where it matters - Ports::dispatch is an
    entry and reaches rtosc_amessage by a path that goes through the
